@@ -302,10 +302,42 @@ def _check_before_write(ctx, mod):
            'every accepted request passed the per-trait accounting (no '
            'return before it)', path=K.describe(skip) if skip else None,
            construct='per-trait accounting always reached')
+    # the overall check: the request is compared (as second argument) with
+    # the free capacity computed by _calc_free over the partition object of
+    # (partition, cell), before anything else can accept it
+    overall = [c for c in K.calls(cap.node)
+               if isinstance(c.func, ast.Name) and c.func.id == '_check_limit'
+               and len(c.args) >= 2 and
+               '_calc_free(' in K.rtxt(cap, c.args[0])]
+    okov = len(overall) == 1 and N.txt(overall[0].args[1]) == prq
+    pget = [c for c in K.calls(cap.node)
+            if isinstance(c.func, ast.Name) and c.func.id == '_partition_get']
+    pgdef = mod.functions.get('_partition_get')
+    okpg = bool(pget) and pgdef is not None and all(
+        [K.rtxt(cap, a) for a in c.args] == [
+            "%s['partition']" % prq if p == 'partition' else pcell
+            for p in pgdef.params()[:2]] for c in pget)
+    osites = [n for n in cgraph.nodes if any(
+        c in overall for c in C.node_calls(n))]
+    skipo = K.find_path(cgraph.entry, [cgraph.exit],
+                        cut_node=lambda n: n in osites, follow_exc=False)
+    ctx.ob('C19.3', cap, overall[0] if overall else None,
+           okov and okpg and skipo is None,
+           "every request is checked against the partition's overall free "
+           'capacity (_check_limit(_calc_free(<partition of the request in '
+           'that cell>, ..), request)) on every path',
+           construct='overall capacity check')
     for fname in ('_calc_free', '_calc_free_traits'):
         func = mod.functions[fname]
         nz = N.Normaliser()
         graph = ctx.cfg(func)
+        # every reservation of the listing is accounted: the excluded one
+        # is skipped, the walk goes on
+        for lp in [n for n in graph.nodes if n.kind == 'for' and
+                   not K.enclosing_for(graph, n)]:
+            if N.txt(lp.ast.iter) == func.params()[1]:
+                K.exhaustive_loop(ctx, 'C19.3', func, lp,
+                                  '%s accounting over the listing' % fname)
         facts = N.must_facts(graph, nz)
         subs = [n for n in graph.nodes if n.kind == 'stmt' and
                 isinstance(n.ast, ast.AugAssign)]
